@@ -33,6 +33,10 @@ type Req struct {
 	// Quote: mint: which of the paid mint quotes of the case (0, 1); pollmelt: -1 = the quote of the pre-melt,
 	// i >= 0 = the quote of request i (a melt)
 	Quote int `json:"quote,omitempty"`
+	// SameQuote (melt, only with Pre = melt_failed): the melt is a new attempt on the quote of the pre-melt (whose
+	// payment has failed, which the mint finds out in a poll or state check of this very race) with other inputs -
+	// what a wallet does after a failed payment
+	SameQuote bool `json:"same_quote,omitempty"`
 }
 
 // Case is a set of requests plus what happens before they start.
@@ -119,6 +123,7 @@ func Run(t world.T, cs Case, choose sched.Chooser, after func(w *world.World, r 
 	w.LN.PayByHash = map[string]lnmodel.PayAnswer{}
 	w.LN.ErrTruth = lnmodel.TruthNone
 	// pre-melt
+	var preQuote *world.MMeltQuote
 	if cs.Pre != "" {
 		in := cashu.Proofs{funded[0].P}
 		fee := w.FeeFor(in)
@@ -139,6 +144,7 @@ func Run(t world.T, cs Case, choose sched.Chooser, after func(w *world.World, r 
 			w.LN.Resolve(mq.Hash, false)
 		}
 		res.Pre = &Outcome{Spec: Req{Kind: "melt", Inputs: []int{0}, LN: cs.Pre}, State: r.State.String(), QuoteID: mq.ID, Hash: mq.Hash}
+		preQuote = mq
 	}
 	s := sched.New()
 	hook := func(pos string) { s.Yield(pos) }
@@ -180,6 +186,12 @@ func Run(t world.T, cs Case, choose sched.Chooser, after func(w *world.World, r 
 			p.mintQ = mintQuotes[r.Quote]
 			p.outs = mkOuts(8)
 		case "melt":
+			if r.SameQuote && preQuote != nil && cs.Pre == "melt_failed" {
+				p.quote = preQuote
+				w.LN.PayByHash[preQuote.Hash] = lnAns[r.LN]
+				res.Outs[i].QuoteID, res.Outs[i].Hash = preQuote.ID, preQuote.Hash
+				break
+			}
 			inv := w.Net.ExternalInvoice((total - fee) * 1000)
 			mq, err := w.RequestMeltQuote(inv.Request, 0)
 			if err != nil {
@@ -270,15 +282,36 @@ func Run(t world.T, cs Case, choose sched.Chooser, after func(w *world.World, r 
 		}
 		return lnmodel.TruthNone
 	}
+	payCalls := func(hash string) (n int) {
+		for _, c := range w.LN.Log() {
+			if (c.Method == "SendPayment" || c.Method == "PayPartialAmount") && c.Hash == hash {
+				n++
+			}
+		}
+		return n
+	}
+	retried := false
 	for i, r := range cs.Reqs {
 		if r.Kind == "melt" {
 			res.Outs[i].Accepted = paying(res.Outs[i].Hash)
 			res.Outs[i].PayTruth = truth(res.Outs[i].Hash)
+			if r.SameQuote && res.Pre != nil && res.Outs[i].Hash == res.Pre.Hash {
+				// a new attempt on the pre-melt's quote: the first pay call for that hash was the pre-melt's
+				retried = true
+				if payCalls(res.Pre.Hash) < 2 {
+					res.Outs[i].Accepted, res.Outs[i].PayTruth = false, lnmodel.TruthNone
+				}
+			}
 		}
 	}
 	if res.Pre != nil {
 		res.Pre.Accepted = paying(res.Pre.Hash)
 		res.Pre.PayTruth = truth(res.Pre.Hash)
+		if retried {
+			// the pre-melt's own payment had definitively failed before the race began; what the payment record says
+			// now belongs to the new attempt
+			res.Pre.Accepted, res.Pre.PayTruth = false, lnmodel.TruthFailed
+		}
 	}
 	for i := range res.Outs {
 		if res.Outs[i].Accepted {
@@ -324,6 +357,9 @@ func (r *Result) AcceptedBy(cs Case) [][]string {
 			name := o.Spec.Kind
 			if name == "melt" {
 				name += "_" + o.Spec.LN
+				if o.Spec.SameQuote {
+					name += "_retry_on_failed_quote"
+				}
 			}
 			out[j] = append(out[j], name)
 		}
@@ -421,6 +457,11 @@ func GenCase(t *rapid.T, kinds []string) Case {
 			}
 			if r.Kind == "melt" {
 				r.LN = rapid.SampledFrom([]string{"success", "pending", "failed", "error"}).Draw(t, "ln")
+				if cs.Pre == "melt_failed" && rapid.Bool().Draw(t, "retry_on_pre_quote") {
+					// a new attempt on the failed pre-melt's quote brings other inputs (proof 0 is still locked)
+					r.SameQuote = true
+					r.Inputs = []int{1}
+				}
 			}
 		case "pollmelt":
 			r.Quote = -1
